@@ -106,3 +106,22 @@ Definition routing_ok (t : list entry) : bool := forallb entry_ok t.
 
 Definition is_vt (o : option exc) : bool :=
   match o with Some VErr | Some TErr => true | _ => false end.
+
+(* ---- per-point arrays: the length / finiteness validation (_check_optional_array / _check_sized_array)
+   is the FIRST thing that happens to the argument -- no subscripting, fancy indexing by the sort order
+   or conversion before it -- in every function that validates one, and the eight _setup_* families
+   (1-D and 2-D) do validate their weights. *)
+Definition aentry_ok (e : aentry) : bool :=
+  match a_events e with AValidate :: _ => true | _ => false end.
+Definition required_arrays : list (bool * string * string) :=
+  [(false, "_setup_whittaker", "weights"); (false, "_setup_polynomial", "weights");
+   (false, "_setup_spline", "weights"); (false, "_setup_classification", "weights");
+   (true, "_setup_whittaker", "weights"); (true, "_setup_polynomial", "weights");
+   (true, "_setup_spline", "weights"); (true, "_setup_classification", "weights");
+   (false, "adaptive_minmax", "weights"); (true, "adaptive_minmax", "weights");
+   (false, "aspls", "alpha"); (true, "aspls", "alpha"); (false, "pspline_aspls", "alpha")]%string.
+Definition amatches (r : bool * string * string) (e : aentry) : bool :=
+  let '(td, fn, arg) := r in
+  Bool.eqb td (a_two_d e) && String.eqb fn (a_fn e) && String.eqb arg (a_arg e).
+Definition array_routing_ok (t : list aentry) : bool :=
+  forallb aentry_ok t && forallb (fun r => existsb (amatches r) t) required_arrays.
